@@ -390,12 +390,21 @@ class ScanOrderCheck(Spec):
     inline = ()
 
     def body_slice(self, node):
+        """Structural, independent of local names: the slice starts after the statement that turns the collected
+        frames into an array (the first assignment following the file loop)."""
         import ast
 
-        for k, st in enumerate(node.body):
-            if isinstance(st, ast.Assign) and isinstance(st.targets[0], ast.Name) and st.targets[0].id == "I":
-                return node.body[k:], f"lines {st.lineno}-{node.end_lineno} (the sortedness check; the file-reading loop above it is external I/O)"
-        return None
+        loop = next((k for k, st in enumerate(node.body) if isinstance(st, ast.For)), None)
+        if loop is None or loop + 2 > len(node.body):
+            return None
+        arr = node.body[loop + 1]
+        if not (isinstance(arr, ast.Assign) and len(arr.targets) == 1 and isinstance(arr.targets[0], ast.Name)):
+            return None
+        self._frames_name = arr.targets[0].id
+        # every other local the prefix assigns (e.g. the frame-count table) is handed over as an opaque table
+        self._other_names = sorted({n.id for st in node.body[: loop + 1] for n in ast.walk(st) if isinstance(n, ast.Name) and isinstance(n.ctx, ast.Store)} - {self._frames_name})
+        first = node.body[loop + 2]
+        return node.body[loop + 2 :], f"lines {first.lineno}-{node.end_lineno} (the sortedness check; the file-reading loop above it is verified separately for fixed shapes)"
 
     def inputs(self, cx):
         n = z3.Int("nframes")
@@ -403,7 +412,9 @@ class ScanOrderCheck(Spec):
         return Args(files=None, _frames=sym_array("frame_time", (n,), "int"))
 
     def slice_env(self, cx, a):
-        return dict(all_frames=a._frames, num_frames={})
+        env = {nm: {} for nm in getattr(self, "_other_names", ["num_frames"])}
+        env[getattr(self, "_frames_name", "all_frames")] = a._frames
+        return env
 
     def call_args(self, a):
         return [a.files], {}
@@ -538,3 +549,28 @@ class ScanReadLoopSorted(ScanReadLoop):
 
 
 SCAN_READ_UNITS = [ScanReadLoop((2, 1, 2)), ScanReadLoopSorted((2, 1, 2)), ScanReadLoop((1, 3))]
+
+
+class GridInitMissingFile(GridInit):
+    """A grid file that cannot be opened is a start-up error (SystemExit), not a traceback later on."""
+
+    def __init__(self):
+        super().__init__(False)
+        self.name = "Grid.__init__[grid file cannot be opened]"
+
+        def dataset(interp, fname, *a, **k):
+            raise PyRaise("FileNotFoundError", (fname,))
+
+        self.externals = {"netCDF4.Dataset": dataset}
+
+    def raises(self, cx, a):
+        return [(True, "SystemExit")]
+
+    def model(self, cx, a):
+        return NotImplemented
+
+    def ensures(self, cx, a, result):
+        return [("C20: a grid file that cannot be opened must stop the start-up (SystemExit)", False)]
+
+
+GRID_MISSING_UNITS = [GridInitMissingFile()]
